@@ -40,6 +40,9 @@ type faultWriter struct {
 	// keeps what was taken before the failure, later holds what was taken after it.
 	once  bool
 	later []byte
+	// fullCount: the failing call reports all its bytes as written and still returns the error (as a quota or tee
+	// writer may)
+	fullCount bool
 }
 
 func (w *faultWriter) Write(p []byte) (int, error) {
@@ -55,6 +58,10 @@ func (w *faultWriter) Write(p []byte) (int, error) {
 	if w.failAt >= 0 && idx == w.failAt {
 		w.failed = true
 		n := 0
+		if w.fullCount {
+			w.accepted = append(w.accepted, p...)
+			return len(p), errInjected
+		}
 		if w.partial {
 			n = len(p) / 2
 			w.accepted = append(w.accepted, p[:n]...)
@@ -93,9 +100,9 @@ func init() {
 			"distinct = distinct (sources, data, fault); non-trivial = the fault hits a write that carries bytes",
 		N: func(tier string) int {
 			if tier == "thorough" {
-				return 300000
+				return 200000
 			}
-			return 12000
+			return 8000
 		},
 		Exhaustive: func(tier string) bool { return false },
 		Run: func(ctx *fw.Ctx, i int) fw.Result {
@@ -225,6 +232,12 @@ func init() {
 				}
 				for _, partial := range []bool{false, true} {
 					if r := check(&faultWriter{failAt: k, capacity: -1, partial: partial}, fmt.Sprintf("fail at write call %d/%d (partial=%v)", k, len(rec.writes), partial), true, off); r != nil {
+						return *r
+					}
+				}
+				// a writer that reports the full count together with its error, for good or for this call only
+				for _, once := range []bool{false, true} {
+					if r := check(&faultWriter{failAt: k, capacity: -1, fullCount: true, once: once}, fmt.Sprintf("write call %d/%d returns (len, err) (one call only: %v)", k, len(rec.writes), once), true, off); r != nil {
 						return *r
 					}
 				}
